@@ -258,6 +258,32 @@ def written_totals(tr):
     return w
 
 
+def stream_knowledge(tr, ep, sid, before_idx):
+    """(final size known?, receive half already finished?) for endpoint `ep` and stream `sid` before record `before_idx`"""
+    final = None
+    read = 0
+    finished = False
+    for r in tr.recs:
+        if r.idx >= before_idx:
+            break
+        if r.kind == "rxp" and r.ep == ep and r.space == "app":
+            for f in r.frames:
+                if f["type"] == "STREAM" and f["id"] == sid and f["fin"] and final is None:
+                    final = f["offset"] + len(f["data"])
+                elif f["type"] == "RESET_STREAM" and f["id"] == sid:
+                    if final is None:
+                        final = f["final_size"]
+                    finished = True
+        elif r.kind == "app" and r.ep == ep and r.args and r.args[0] == str(sid):
+            if r.what == "read":
+                read = int(r.args[1]) + int(r.args[2])
+            elif r.what in ("eof", "stop") or (r.what == "err" and len(r.args) > 1 and r.args[1] == "receive"):
+                finished = True
+    if final is not None and read >= final:
+        finished = True
+    return final is not None, finished
+
+
 def o_c04_attack(tr):
     bad = []
     a = tr.attack
@@ -293,12 +319,25 @@ def o_c04_attack(tr):
         if rejected:
             bad.append((f"e2e:c04:false-reject:{name}:{code:#x}", f"victim {victim} closed the connection with transport error {code:#x} on a packet that stays within every limit ({space} pn {pn})"))
         return bad
-    allowed = error_for(cls)
+    allowed = list(error_for(cls))
+    # attacks on a stream the honest application really uses: what else the frame commits depends on what the victim
+    # already knows about that stream
+    tag = ""
+    if cls in ("streamDataLimit", "connDataLimit"):
+        for f in rx.frames:
+            if f["type"] == "STREAM":
+                known, closed = stream_knowledge(tr, victim, f["id"], rx.idx)
+                if known:
+                    allowed += RFC_ERROR_FOR["dataBeyondFinalSize"]      # §4.5: data beyond the known final size
+                if closed:
+                    tag = ":closed-stream"
     if not rejected:
         if cls in MAY_IGNORE:
             return bad
+        if ev is not None and kind in ("Closed", "Application"):
+            return bad      # the victim's application closed the connection at that very moment: no verdict
         what = f"closed with {kind}" if ev else "did not close the connection"
-        bad.append((f"e2e:c04:not-rejected:{name}", f"victim {victim} processed the offending {space} packet {pn} ({cls}) but {what}; RFC 9000 wants one of {[hex(c) for c in allowed]}"))
+        bad.append((f"e2e:c04:not-rejected:{name}{tag}", f"victim {victim} processed the offending {space} packet {pn} ({cls}{tag}) but {what}; RFC 9000 wants one of {[hex(c) for c in allowed]}"))
         return bad
     if code not in allowed:
         bad.append((f"e2e:c04:wrong-code:{name}:{code:#x}", f"victim {victim} closed with transport error {code:#x} for {cls}; RFC 9000 wants one of {[hex(c) for c in allowed]}"))
